@@ -83,14 +83,16 @@ func c08MakeStepWorkload(seed int64, idx int, H int) *c08Workload {
 // held in front of block 1's first record.
 func c08StepSetup(w *c08Workload, live string) (db *store.ChainDatabase, unlock func()) {
 	os.MkdirAll(live, 0755)
-	db = store.NewChainDataBase(live)
+	db = c08OpenChain(live)
 	if sb, ss := w.apply(db, 0); sb != "ok" || ss != "ok" {
 		panic("step workload: genesis rejected")
 	}
 	if !c08QueueIdle(db.Beansdb.Queue, 20*time.Second) {
-		panic("step: genesis does not drain")
+		panic(c08HangPanic{"writer-drain", "step: genesis does not drain"})
 	}
 	blk := w.Blocks[1]
+	c08Mark("set-block")
+	defer c08Unmark()
 	if err := db.SetBlock(blk.Hash(), blk); err != nil {
 		panic("step: SetBlock: " + err.Error())
 	}
@@ -114,11 +116,13 @@ func c08StepOracle(c *Ctx, base string) {
 		db, unlock := c08StepSetup(w, live)
 		var perr error
 		evs := c08InotifyRunDirs([]string{live, filepath.Join(live, "index")}, []string{"", "index/"}, func() {
+			c08Mark("set-stable-block")
 			_, perr = db.SetStableBlock(w.Blocks[1].Hash())
+			c08Unmark()
 		})
 		unlock()
 		c08QueueIdle(db.Beansdb.Queue, 20*time.Second)
-		db.Close()
+		c08CloseChain(db)
 		os.RemoveAll(live)
 		if perr != nil {
 			panic("step: promotion failed: " + perr.Error())
@@ -176,7 +180,9 @@ func c08StepOracle(c *Ctx, base string) {
 			live := filepath.Join(base, "step-live-"+f.name)
 			db, unlock := c08StepSetup(w, live)
 			restore := f.inject(live, db)
+			c08Mark("set-stable-block")
 			_, perr := db.SetStableBlock(w.Blocks[1].Hash())
+			c08Unmark()
 			img := &c08Image{candsOld: -1, class: "step-" + f.name, cause: f.cause, dir: filepath.Join(base, "stepimg-"+f.name), completed: f.completed, inflight: f.infl}
 			img.name = fmt.Sprintf("REAL image: SetStableBlock(block 1) stopped at the durable step '%s' (that step made to fail through the environment: %v); data directory copied at that moment", f.name, perr)
 			img.replay = map[string]interface{}{"level": "ChainDatabase", "family": "step-boundary", "step": f.name, "workload": wl, "seed": c.Seed}
@@ -184,7 +190,7 @@ func c08StepOracle(c *Ctx, base string) {
 			restore(img.dir)
 			unlock()
 			time.Sleep(20 * time.Millisecond)
-			Safe(func() string { db.Close(); return "" })
+			Safe(func() string { c08CloseChain(db); return "" })
 			os.RemoveAll(live)
 			if perr == nil {
 				c.Count("step:" + f.name + ":fault-not-hit")
@@ -194,7 +200,7 @@ func c08StepOracle(c *Ctx, base string) {
 			os.RemoveAll(img.dir)
 			if o == nil {
 				c.Count("chain:" + img.class + ":process-died")
-				c08Fail(c, "c08/reopen-crash/"+img.cause, fmt.Sprintf("[%s] the process reopening the data directory dies: %s", img.name, die), img.replay)
+				c08ChildDied(c, img, die)
 				return
 			}
 			if o.OpenPanic != "" {
